@@ -38,9 +38,10 @@ TRUSTED_BASE = ["Coq 8.16.1 kernel (coqc), vm_compute only",
                 "reordered writes); POSIX regular-file semantics"]
 ASSUMPTIONS = ["a process crash keeps exactly the effect of the system calls that completed (each write atomic and durable, no reordering)",
                "write/lseek/read never fail and never transfer fewer bytes than asked",
-               "sequence numbers and control values below 2^31"]
-RULE = ("quick: 120 random store histories of <= 6 operations (message put over sequence numbers 1..4 with payloads of 1..12 "
-        "distinct bytes, control put, get, close+reopen; 3 of 4 control-first) x EVERY crash point k = 0..total number of "
+               "message sequence numbers below 2^31; control values: the whole unsigned range"]
+RULE = ("quick: 110 random store histories of <= 6 operations (message put over sequence numbers 1..4 with payloads of 1..12 "
+        "distinct bytes, control put with values small or from {8191, 8192, 8193, 65535, 65536, 2^31-1, 2^31, 2^32-1}, get, "
+        "close+reopen; 3 of 4 control-first) plus 8 fixed control-first histories using every boundary control value as sender and as target, x EVERY crash point k = 0..total number of "
         "write/lseek calls; thorough: ALL histories of <= 3 operations over {put 1,2,3 x 2 payload sizes, control put, reopen} and every "
         "6th history of length 4 (all of them with VERIF_C27_FULL=1; that run exceeds the 15 min budget on a loaded machine) x "
         "every crash point.  After the crash: both files compared byte-wise with the model's disk; reopen; control get, last, get "
@@ -131,6 +132,14 @@ def locate(pre, k):
 
 # --------------------------------------------------------------------------- generation
 
+# control values: see c26.py (target lives in the int32 _size field of index record 0)
+CTL_BOUNDARY = (8191, 8192, 8193, 65535, 65536, 2**31 - 1, 2**31, 2**32 - 1)
+
+
+def ctl_val(rng):
+    return rng.choice(CTL_BOUNDARY) if rng.randrange(5) < 2 else rng.randrange(1, 60)
+
+
 def obs(maxseq):
     return [("c",), ("L",)] + [("G", s) for s in range(1, maxseq + 1)]
 
@@ -151,7 +160,7 @@ def post_ops(rng, pre, k, maxseq):
     other = target % maxseq + 1
     sz = rng.choice((3, 8, 14))
     a = ("P", target, fresh(rng, rng.choice((2, 5)), 201))
-    b = rng.choice([("P", other, fresh(rng, sz, 202)), ("P", maxseq, fresh(rng, sz, 203)), ("C", rng.randrange(1, 50), rng.randrange(1, 50))])
+    b = rng.choice([("P", other, fresh(rng, sz, 202)), ("P", maxseq, fresh(rng, sz, 203)), ("C", ctl_val(rng), ctl_val(rng))])
     return [a, b]
 
 
@@ -190,23 +199,29 @@ def gen_cases(rng, tier):
                     if o[0] == "P":
                         pre.append(("P", o[1], bytes(((serial * 13 + j * 29 + i) & 0xff) for i in range(o[2]))))
                     elif o[0] == "C":
-                        pre.append(("C", 10 + j, 20 + (serial % 7)))
+                        # small and boundary values alternate deterministically
+                        pre.append(("C", 10 + j, 20 + (serial % 7)) if serial % 3 else
+                                   ("C", CTL_BOUNDARY[(serial // 3) % 8], CTL_BOUNDARY[(serial // 3 + 5) % 8]))
                     else:
                         pre.append(("O",))
                 all_points(rng, pre, 3, cs)
         return cs
-    for n in range(120):
+    # every boundary control value as sender and as target, in a control-first history, every crash point
+    for j, v in enumerate(CTL_BOUNDARY):
+        w = CTL_BOUNDARY[(j + 3) % len(CTL_BOUNDARY)]
+        all_points(rng, [("C", v, w), ("P", 1, fresh(rng, 4, j)), ("C", w, v)], 2, cs)
+    for n in range(110):
         ln = rng.randrange(1, 7)
         pre = []
         if n % 4 != 0:
-            pre.append(("C", rng.randrange(1, 30), rng.randrange(1, 30)))
+            pre.append(("C", ctl_val(rng), ctl_val(rng)))
         while len(pre) < ln:
             r = rng.randrange(100)
             if r < 55:
                 seq = rng.randrange(1, 5) if rng.randrange(15) else 0
                 pre.append(("P", seq, fresh(rng, rng.randrange(1, 13), len(pre) + 1)))
             elif r < 72:
-                pre.append(("C", rng.randrange(1, 60), rng.randrange(1, 60)))
+                pre.append(("C", ctl_val(rng), ctl_val(rng)))
             elif r < 87:
                 pre.append(("G", rng.randrange(1, 5)))
             else:
